@@ -7,6 +7,7 @@ import (
 	"encoding/json"
 	"fmt"
 	"hash/fnv"
+	"math"
 	"math/rand"
 	"os"
 	"os/exec"
@@ -168,7 +169,7 @@ func (c *Ctx) Distinct(fp uint64) {
 // Sample keeps a few of actual cases for the evidence
 func (c *Ctx) Sample(v interface{}) {
 	if len(c.samples) < c.maxSamples {
-		c.samples = append(c.samples, v)
+		c.samples = append(c.samples, jsonSafe(v))
 	}
 }
 
@@ -176,7 +177,45 @@ func (c *Ctx) WantSample() bool { return len(c.samples) < c.maxSamples }
 
 // Violate records violation of the property with witness details. The kind is a short stable key of the failed
 // assertion used for fingerprinting (known findings are matched by property + kind + key detail).
+// jsonSafe replaces the values encoding/json refuses (NaN, +-Inf) by their text, so that a witness which contains them can
+// not take the result file of the whole shard with it
+func jsonSafe(v interface{}) interface{} {
+	switch x := v.(type) {
+	case float64:
+		if math.IsNaN(x) || math.IsInf(x, 0) {
+			return fmt.Sprint(x)
+		}
+		return x
+	case []float64:
+		out := make([]interface{}, len(x))
+		for i, f := range x {
+			out[i] = jsonSafe(f)
+		}
+		return out
+	case map[string]interface{}:
+		for k, e := range x {
+			x[k] = jsonSafe(e)
+		}
+		return x
+	case map[string]float64:
+		out := map[string]interface{}{}
+		for k, f := range x {
+			out[k] = jsonSafe(f)
+		}
+		return out
+	case []interface{}:
+		for i, e := range x {
+			x[i] = jsonSafe(e)
+		}
+		return x
+	}
+	return v
+}
+
 func (c *Ctx) Violate(kind string, detail map[string]interface{}, format string, args ...interface{}) {
+	if detail != nil {
+		detail = jsonSafe(detail).(map[string]interface{})
+	}
 	v := &Violation{Property: c.Prop.ID, Kind: kind, Message: fmt.Sprintf(format, args...), Tier: c.Tier, Seed: c.Seed,
 		Case: c.Case, Shard: c.Shard, Detail: detail}
 	// keep at most 20 violations per shard, the first ones matter
